@@ -538,6 +538,8 @@ impl ActionProvider for ReferenceInlineSection {
             .filter(|target_id| tree.get(*target_id).is_reference())
             // nothing to inline for a dangling reference, nowhere to put it outside a section
             .filter(|target_id| context.has_key(&tree.reference_key(*target_id)))
+            // a note cannot be inlined into itself (and deleted)
+            .filter(|target_id| tree.reference_key(*target_id) != key)
             .filter(|target_id| tree.get_surrounding_section_id(*target_id).is_some())
             .map(|_| Action {
                 title: "Inline section".to_string(),
@@ -591,6 +593,7 @@ impl ActionProvider for ReferenceInlineQuote {
         Some(target_id)
             .filter(|target_id| tree.get(*target_id).is_reference())
             .filter(|target_id| context.has_key(&tree.reference_key(*target_id)))
+            .filter(|target_id| tree.reference_key(*target_id) != key)
             .map(|_| Action {
                 title: "Inline quote".to_string(),
                 identifier: self.identifier(),
